@@ -29,7 +29,8 @@ OUTSIDE = [
 ]
 ASSUMPTIONS = [
     "E-SQL: symbolic SQL semantics (vf/symsql), validated differentially against real SQLite on random valid states on every run",
-    "pre-states satisfy the schema constraints and the graph invariants I1-I7 (DESIGN.md C09)",
+    "pre-states satisfy the schema constraints and the graph invariants I1-I9 (DESIGN.md sections 5/C09 and 9.3); I1-I5, I7 are re-established by the obligations of C09, I6, I8, I9 are assumed",
+    "stubs: Workflow._find_owning_static_tree -> None and Workflow.watch_dir -> no-op where static trees are outside (no st node in the state); FileHash.from_json results are opaque; Step.can_recycle -> True and Step.adjust_label -> identity in the try_recycle obligations; reporter coroutines return None",
     "step_need_count (a progress counter) and its triggers are not modelled",
 ]
 
